@@ -70,7 +70,7 @@ func hhmm(r *vlib.R, m int) string {
 
 func runC14(tier string, _ []string) int {
 	c := vlib.NewCtx("C14", tier, "exploration")
-	c.SetRule("configs: PRNG (start,end) minute pairs incl. all boundary pairs (00:00/23:59/equal/adjacent/wrap), weekday subsets (all 128 reachable), date lists incl. month/year ends and Feb 29; instants: every minute of a full week around an anchor (anchors: plain week, year end, leap day, month end) plus the seconds/nanoseconds around every window edge, each instant in UTC, +14:00, -12:00, +05:45 and -03:30; oracle = the day-D definition of the property, plus agreement across zones. distinct = (start<end | start==end | wrap, weekday filter size, date filter?, anchor)")
+	c.SetRule("configs: PRNG (start,end) minute pairs incl. all boundary pairs (00:00/23:59/equal/adjacent/wrap), weekday subsets (all 128 reachable), date lists incl. month/year ends and Feb 29; instants: every minute of a full week around an anchor (anchors: plain week, year end, leap day, month end) plus the seconds/nanoseconds around every window edge, each instant in UTC, +14:00, -12:00, +05:45 and -03:30; oracle = the day-D definition of the property, plus agreement across zones. distinct = (start<end | start==end | wrap, weekday filter size, date filter?, anchor); finally 400 instants in a jumbled order (all anchors, all zones) asked of ONE schedule value in a row")
 	c.Assume("only well-formed HH:MM / YYYY-MM-DD strings are generated")
 	nCfg := c.N(150, 6000)
 	zones := []*time.Location{time.UTC, time.FixedZone("p14", 14*3600), time.FixedZone("m12", -12*3600), time.FixedZone("p0545", 5*3600+45*60), time.FixedZone("m0330", -(3*3600 + 30*60))}
@@ -164,6 +164,34 @@ func runC14(tier string, _ []string) int {
 					if ok {
 						ok = check(e.Add(off))
 					}
+				}
+			}
+		}
+		// one schedule value asked about many instants in a row, in an order that jumps back and forth
+		// across days, months and years (whatever a schedule remembers from one call must not leak into the next)
+		if ok {
+			var ts []time.Time
+			for q := 0; q < 400; q++ {
+				base := anchors[r.Intn(len(anchors))]
+				t := base.Add(time.Duration(r.Intn(10*1440)-1440) * time.Minute).Add(time.Duration(r.Intn(3)-1) * time.Nanosecond)
+				if r.Chance(0.3) {
+					day := base.AddDate(0, 0, r.Intn(9)-1)
+					t = day.Add(time.Duration([]int{cfg.sMin, cfg.eMin}[r.Intn(2)]) * time.Minute).Add([]time.Duration{-time.Nanosecond, 0, time.Nanosecond}[r.Intn(3)])
+				}
+				ts = append(ts, t.In(zones[r.Intn(len(zones))]))
+			}
+			got, errs := client.VerifScheduleActiveSeq(cfg.Start, cfg.End, cfg.Weekdays, cfg.Dates, ts)
+			atomic.AddInt64(&evals, int64(len(ts)))
+			for q, t := range ts {
+				if errs[q] != nil {
+					c.Violate("schedule:error", "activeForTime returned an error for a well-formed config: "+errs[q].Error(), map[string]any{"cfg": cfg, "t": t.Format(time.RFC3339Nano), "call_in_sequence": q})
+					ok = false
+					break
+				}
+				if want := refActive(cfg, t); got[q] != want {
+					c.Violate("schedule:wrong-in-a-sequence-of-calls", fmt.Sprintf("call %d on one schedule value: active=%v, definition says %v", q, got[q], want), map[string]any{"cfg": cfg, "t": t.Format(time.RFC3339Nano), "utc": t.UTC().Format(time.RFC3339Nano), "call_in_sequence": q})
+					ok = false
+					break
 				}
 			}
 		}
